@@ -43,9 +43,13 @@ func init() {
 		runner.Part{Scenario: "simhost", Params: p("pmember", "10", "hosts", "4"), Share: 1},
 		// few voters with non-voting members / witnesses, crashes between send and save
 		runner.Part{Scenario: "simhost", Params: p("hosts", "2", "voters", "1", "memberbias", "1", "pmember", "80", "pcrash", "20", "prestart", "100", "fsyield", "500", "readmix", "0", "clients", "3", "steps", "1200", "sessions", "0"), Share: 2},
-		runner.Part{Scenario: "simhost", Params: p("hosts", "4", "voters", "2", "memberbias", "2", "pmember", "25", "pcrash", "12", "fsyield", "300"), Share: 1})
+		runner.Part{Scenario: "simhost", Params: p("hosts", "4", "voters", "2", "memberbias", "2", "pmember", "25", "pcrash", "12", "fsyield", "300"), Share: 1},
+		// a leader cut off together with a non-voting member, deposed, repaired and elected again
+		runner.Part{Scenario: "simhost", Params: p("hosts", "4", "voters", "3", "memberbias", "1", "pmember", "20", "ppartition", "15", "groupsplit", "60", "pheal", "10", "partialheal", "60", "ptransfer", "15", "checkquorum", "0", "pcrash", "2", "readmix", "10", "steps", "2500"), Share: 3})
 	sh("C03", 90, 1200, runner.Part{Scenario: "simhost", Params: p("ppartition", "10", "pcrash", "8", "ops", "8"), Share: 2},
-		runner.Part{Scenario: "simhost", Params: p("pmember", "10", "ptransfer", "10"), Share: 1})
+		runner.Part{Scenario: "simhost", Params: p("pmember", "10", "ptransfer", "10"), Share: 1},
+		// campaigns (timeouts and leadership transfers) of replicas whose apply lags behind committed membership changes
+		runner.Part{Scenario: "simhost", Params: p("pmember", "25", "ptransfer", "30", "hosts", "4", "smyield", "300"), Share: 1})
 	sh("C04", 90, 1200, runner.Part{Scenario: "simhost", Params: p("pcrash", "12", "fsyield", "300", "torn", "1"), Share: 2},
 		runner.Part{Scenario: "simhost", Params: p("pcrash", "6", "fsyield", "50"), Share: 1})
 	sh("C05", 90, 1200, runner.Part{Scenario: "simhost", Params: p("sessions", "1", "sm", "1", "timeout", "30", "pdrop", "80", "pdup", "30", "ops", "40"), Share: 2},
@@ -75,11 +79,15 @@ func init() {
 	sh("C11", 90, 1200, runner.Part{Scenario: "simhost", Params: p("smyield", "500", "pstop", "6", "psnapreq", "10"), Share: 2},
 		runner.Part{Scenario: "simhost", Params: p("smyield", "300", "pcrash", "6"), Share: 1})
 	sh("C12", 90, 1200, runner.Part{Scenario: "simhost", Params: p("pstop", "4", "timeout", "30"), Share: 2},
+		// StopShard / restarts landing inside the step worker's request intake (engine yield points)
+		runner.Part{Scenario: "simhost", Params: p("pstop", "10", "engyield", "400", "readmix", "60", "timeout", "30", "pcrash", "0"), Share: 2},
 		runner.Part{Scenario: "simhost", Share: 2},
 		runner.Part{Scenario: "l0/pending", Share: 1})
 	sh("C16", 90, 1200, runner.Part{Scenario: "simhost", Params: p("tanlog", "2048", "snapshot", "5", "overhead", "0", "fsyield", "300", "pcrash", "10", "ops", "40"), Share: 2},
 		runner.Part{Scenario: "simhost", Params: p("snapshot", "5", "fsyield", "100", "pcrash", "10", "psnapreq", "10", "sm", "3"), Share: 1},
-		runner.Part{Scenario: "simhost", Params: p("snapshot", "12", "fsyield", "300", "pcrash", "8", "torn", "1"), Share: 1})
+		runner.Part{Scenario: "simhost", Params: p("snapshot", "12", "fsyield", "300", "pcrash", "8", "torn", "1"), Share: 1},
+		// on-disk state machines that install streamed snapshots (lagging followers) and crash while doing so
+		runner.Part{Scenario: "simhost", Params: p("sm", "3", "hosts", "3", "snapshot", "5", "overhead", "0", "ppartition", "12", "pheal", "10", "pcrash", "12", "prestart", "60", "fsyield", "400", "ops", "40", "readmix", "10"), Share: 2})
 	sh("C17", 90, 1200, runner.Part{Scenario: "simhost", Share: 2},
 		runner.Part{Scenario: "simhost", Params: p("pmember", "10", "ptransfer", "8", "ppartition", "8"), Share: 1})
 	sh("C18", 90, 1200, runner.Part{Scenario: "simhost", Params: p("pmember", "20", "hosts", "5"), Share: 1},
